@@ -84,7 +84,7 @@ def judge (c : Case) (o : Obs) : Bool × String :=
   | none => (true, "-")                       -- a pattern outside the property's vocabulary: no claim
   | some R =>
     match normal R, parseCanonical c.req.path with
-    | true, some segs => (specOK sat R c.req segs o, classify sat R c.req segs)
+    | true, some segs => (specOK sat R c.req ⟨segs, false⟩ o, classify sat R c.req ⟨segs, false⟩)
     | _, _ => (soundOK R c.req o, "-")
 
 end Rivaas.RouteCase
